@@ -3,6 +3,7 @@ CONSTANTS N1 = 3
           N2 = 1
           ND = 2
           NCTX = 8
+          ALPHA = "full"
 CHECK_DEADLOCK FALSE
 INVARIANT Emit
 INVARIANT BarrierOK
